@@ -254,6 +254,7 @@ func (c *tunnelChannel) Invoke(ctx context.Context, methodName string, req, resp
 	if err != nil {
 		return err
 	}
+	verifYield("client.newStream.sent")
 	defer func() {
 		if retErr != nil {
 			// Make sure the RPC is finished before returning an error, and
@@ -297,6 +298,7 @@ func (c *tunnelChannel) Invoke(ctx context.Context, methodName string, req, resp
 }
 
 func (c *tunnelChannel) NewStream(ctx context.Context, desc *grpc.StreamDesc, methodName string, opts ...grpc.CallOption) (grpc.ClientStream, error) {
+	defer verifYield("client.newStream.sent")
 	return c.newStream(ctx, desc.ClientStreams, desc.ServerStreams, methodName, opts...)
 }
 
